@@ -1,0 +1,35 @@
+package internal
+
+import "regexp"
+
+// The code generated for a directive is a function that declares parameters
+// and variables of its own. Inside it, the generated code spells names that
+// the user's program chose: the names of the types of the values that flow
+// through the directive, and the names packages are imported under. If the
+// function declares the same name ahead of such a reference, the reference
+// resolves to the function's variable instead: the output does not compile.
+// The expressions below list the names the templates declare, so that a
+// program using one of them where it would be captured gets a diagnostic.
+var (
+	// _generatedNames matches the names in scope where the templates declare
+	// variables of the user's types: those of the function's parameters and
+	// results, of the variables of its outermost block, and of the variables
+	// the argument expressions of the directive are hoisted into.
+	_generatedNames = regexp.MustCompile(
+		`^(ctx|emitter|err|flowInfo|flowEmitter|schedInfo|schedEmitter|sched|startTime|tasks` +
+			`|v\d+|task\d+|pred\d+|p\d+(PanicRecover|PanicStacktrace)?|_\d+_\d+)$`)
+
+	// _generatedInnerNames matches the other names the templates declare.
+	// Only the packages that the templates themselves refer to are named in
+	// their scope.
+	_generatedInnerNames = regexp.MustCompile(
+		`^(parallelInfo|parallelEmitter|directiveInfo|taskEmitter|recovered|stacktrace|idx|key|val` +
+			`|(slice|map)Task\d+(Jobs|Slice)?)$`)
+
+	// _generatedModifierNames is _generatedNames for the functions generated
+	// in modifier mode, whose parameters are named after the position of the
+	// directive's options.
+	_generatedModifierNames = regexp.MustCompile(
+		`^(ctx|emitter|flowInfo|flowEmitter|schedInfo|schedEmitter|sched|startTime|tasks` +
+			`|v\d+|task\d+|_\d+_\d+|m\w*\d+_\d+)$`)
+)
